@@ -55,6 +55,9 @@ def prior_calls(n):
         lambda: gs.amplitude(1, "pphh", "ijab"),
         lambda: m.isr_matrix_block(rng.randint(0, 1), "ph,ph", "ia,jb"),
         lambda: isr.precursor(1, "ph", "ket", "ia"),
+        lambda: (isr.intermediate_state(1, "ph", "bra", "ia"),
+                 isr.precursor(1, "ph", "bra", "ia")),
+        lambda: isr.overlap_precursor(2, "ph,ph", "ia,jb"),
         # spin-labelled generic indices (spatial-orbital expressions): the
         # alpha and beta pools advance independently
         lambda: Indices().get_generic_indices(
@@ -77,6 +80,13 @@ def requests():
     isr = adcgen.IntermediateStates(gs, "pp")
     m = adcgen.SecularMatrix(isr)
     out = {}
+    # FIRST request: an instance on a ground state with first-order singles
+    # (results of the plain instances used before / below must not leak in)
+    isr_s = adcgen.IntermediateStates(
+        adcgen.GroundState(adcgen.Operators(), first_order_singles=True),
+        "pp")
+    out["overlap_precursor_singles_2"] = (
+        isr_s.overlap_precursor(2, "ph,ph", "ia,jb"), "iajb")
     out["energy2"] = (gs.energy(2), "")
     out["amplitude_2_ph"] = (gs.amplitude(2, "ph", "ia"), "ia")
     out["amplitude_2_pphh"] = (gs.amplitude(2, "pphh", "ijab"), "ijab")
@@ -142,6 +152,19 @@ def requests():
         "norm_factor": sorted(str(s) for s in
                               n1.atoms(Index) & n2.atoms(Index)),
     }
+    # products inside one norm factor (S^(2)*S^(2) at fourth order) must not
+    # share contracted indices either: every index at most twice per term
+    n4 = Expr(gs.norm_factor(4)).expand()
+    bad = set()
+    for t in n4.terms:
+        cnt = {}
+        for o in t.objects:
+            if o.sympy.is_number:
+                continue
+            for s_ in o.idx:
+                cnt[s_] = cnt.get(s_, 0) + int(o.exponent)
+        bad |= {str(s_) for s_, n_ in cnt.items() if n_ > 2}
+    share["norm_factor(4) internal products"] = sorted(bad)
     return out, share
 
 
